@@ -4,7 +4,9 @@ import (
 	"fmt"
 
 	ad "github.com/pbenner/autodiff"
+	"github.com/pbenner/autodiff/statistics/generic"
 	sd "github.com/pbenner/autodiff/statistics/scalarDistribution"
+	vd "github.com/pbenner/autodiff/statistics/vectorDistribution"
 	"verif/sim/core"
 )
 
@@ -231,9 +233,9 @@ func RunScalarClones(c *core.Ctx) {
 		ms.Add(ms, other)
 		c.Count("probe:derivatives-attached")
 	}
-	how := t.Choose(4)
+	how := t.Choose(6)
 	var cp ad.Scalar
-	name := []string{"CloneScalar", "CloneConstScalar", "CloneMagicScalar", "NewScalar+Set"}[how]
+	name := []string{"CloneScalar", "CloneConstScalar", "CloneMagicScalar", "NewScalar+Set", "typed-SET", "typed-MAX"}[how]
 	fail := func(oracle, failure, format string, args ...interface{}) {
 		c.Fail(oracle, "Scalar|"+name+"|"+failure, format, args...)
 	}
@@ -248,6 +250,30 @@ func RunScalarClones(c *core.Ctx) {
 				cp = ms.CloneMagicScalar()
 			} else {
 				cp = src.CloneScalar()
+			}
+		case 4, 5:
+			// the concrete-typed copy paths (SET, and MAX(a, a) which copies
+			// its larger operand) behind the typed vector and matrix methods
+			switch a := src.(type) {
+			case *ad.Real32:
+				r := ad.NewReal32(0)
+				if how == 4 {
+					r.SET(a)
+				} else {
+					r.MAX(a, a)
+				}
+				cp = r
+			case *ad.Real64:
+				r := ad.NewReal64(0)
+				if how == 4 {
+					r.SET(a)
+				} else {
+					r.MAX(a, a)
+				}
+				cp = r
+			default:
+				cp = ad.NullScalar(e.t)
+				cp.Set(src)
 			}
 		default:
 			cp = ad.NullScalar(e.t)
@@ -458,4 +484,118 @@ func RunDistributionParams(c *core.Ctx) {
 	c.StateStr(name + before)
 	c.Nontriv = true
 	c.Sample = map[string]interface{}{"family": name, "parameters": before}
+}
+
+/* constructors of the compound models: the caller's vectors and matrices ---------------------- */
+
+// RunModelConstructors: the constructors behind mixtures and HMMs are handed
+// the caller's weight vector, initial distribution and transition matrix, on
+// probability or on log scale; they normalise what they keep, so they must
+// keep a copy.  After construction, and after mutating what was returned, the
+// caller's objects are unchanged.
+func RunModelConstructors(c *core.Ctx) {
+	t := c.Tape
+	n := t.Range(1, 4)
+	isLog := t.Bool(1, 2)
+	val := func() float64 {
+		x := float64(t.Range(1, 9)) / 4 // deliberately not normalised
+		if isLog {
+			return -x
+		}
+		return x
+	}
+	pi := ad.NullDenseFloat64Vector(n)
+	tr := ad.NullDenseFloat64Matrix(n, n)
+	for i := 0; i < n; i++ {
+		pi.At(i).SetFloat64(val())
+		for j := 0; j < n; j++ {
+			tr.At(i, j).SetFloat64(val())
+		}
+	}
+	snap := func() string { return fmt.Sprint(pi, tr) }
+	before := snap()
+	kind := t.Choose(4)
+	name := []string{"generic.NewHmmProbabilityVector", "generic.NewHmmTransitionMatrix", "generic.NewMixture", "vectorDistribution.NewHmm"}[kind]
+	c.Logf("%s (isLog=%v) on pi=%v tr=%v", name, isLog, pi, tr)
+	fail := func(failure, format string, args ...interface{}) {
+		c.Fail("input-unchanged", "Constructor|"+name+"|"+failure, format, args...)
+	}
+	var mutate func()
+	var err error
+	if pv, site := core.Try(func() {
+		switch kind {
+		case 0:
+			var r generic.HmmProbabilityVector
+			r, err = generic.NewHmmProbabilityVector(pi, isLog)
+			mutate = func() {
+				if r.Vector != nil && r.Dim() > 0 {
+					r.At(0).SetFloat64(-7)
+					r.Normalize()
+				}
+			}
+		case 1:
+			var r generic.HmmTransitionMatrix
+			r, err = generic.NewHmmTransitionMatrix(tr, isLog)
+			mutate = func() {
+				if r.Matrix != nil {
+					r.At(0, 0).SetFloat64(-7)
+					r.Normalize()
+				}
+			}
+		case 2:
+			if isLog {
+				// weights are on probability scale only
+				for i := 0; i < n; i++ {
+					pi.At(i).SetFloat64(-pi.At(i).GetFloat64())
+				}
+				before = snap()
+			}
+			var r *generic.Mixture
+			r, err = generic.NewMixture(pi)
+			mutate = func() {
+				if r != nil {
+					r.LogWeights.At(0).SetFloat64(-7)
+				}
+			}
+		default:
+			if isLog {
+				for i := 0; i < n; i++ {
+					pi.At(i).SetFloat64(-pi.At(i).GetFloat64())
+					for j := 0; j < n; j++ {
+						tr.At(i, j).SetFloat64(-tr.At(i, j).GetFloat64())
+					}
+				}
+				before = snap()
+			}
+			var r *vd.Hmm
+			r, err = vd.NewHmm(pi, tr, nil, nil)
+			mutate = func() {
+				if r != nil {
+					r.Pi.At(0).SetFloat64(-7)
+					r.Tr.At(0, 0).SetFloat64(-7)
+				}
+			}
+		}
+	}); pv != nil {
+		c.Logf("constructor panicked in %s: %v", site, pv)
+		c.Count("op-panicked")
+		return
+	}
+	c.Steps++
+	if err != nil {
+		c.Logf("constructor: %v", err)
+	}
+	if after := snap(); after != before {
+		fail("changed-by-the-constructor", "%s changed the caller's objects: %s -> %s", name, before, after)
+	}
+	if mutate != nil {
+		core.Try(mutate)
+		c.Steps++
+		if after := snap(); after != before {
+			fail("changed-through-the-result", "mutating what %s returned changed the caller's objects: %s -> %s", name, before, after)
+		}
+	}
+	c.Nontriv = n >= 2
+	c.StateStr(fmt.Sprint(name, isLog, n))
+	c.Sample = map[string]interface{}{"constructor": name, "log_scale": isLog, "states": n}
 }
